@@ -266,7 +266,7 @@ def specLdSt (name : String) (b : String) (sf : Nat) (args : List Arg) : Option 
   | (none, _) => none
   | (some (m, rt, lg), rest) =>
     let scale : Int := (2 ^ lg : Nat)
-    if name.endsWith "_imm" || (name.splitOn "_imm_").length = 2 then
+    if name.endsWith "_imm" || (name.dropEnd 2).toString.endsWith "_imm" then
       match rest with
       | [.r rn, .n i] => some (build m [rt, memOff rn i scale (fits (i / scale) 0 4095)])
       | _ => none
